@@ -203,6 +203,30 @@ def run(ctx):
         if m != exp:
             diffs.append({"op": "wrap(header string)", "kbpk": kb.hex(), "header": hs[:80], "key_len": len(key), "mask": mask,
                           "impl": [str(x)[:80] for x in exp], "model": [str(x)[:80] for x in m]})
+    # Header(...) constructor and the six field setters with hostile values (HeaderError only)
+    ctor = []
+    good = ["B", "P0", "T", "E", "00", "N"]
+    for i in range(6):
+        for val in ["", good[i] * 2, good[i] + "0", "_", "é", "０", "\x00", " ", good[i].lower(), "Z" * len(good[i]), "\ud800"]:
+            a = list(good)
+            a[i] = val
+            ctor.append(tuple(a))
+    for _ in range(ctx.n(40, 400)):
+        ctor.append(tuple(t.rstr(rng, rng.choice([len(g), len(g), len(g) + 1, 0]), rng.choice([t.ALNUM, t.PRINT, "ABCD"])) for g in good))
+    cl = ["new_header " + " ".join(core.show(x) for x in a) for a in ctor]
+    for a, l in zip(ctor, core.run_model(cl)):
+        try:
+            h = tr31.Header(*a)
+            i = ("OK", core.show_header(h))
+        except Exception as e:  # noqa: BLE001
+            i = ("ERR", core.bucket(e))
+        evals += 1
+        seen.add(("H",) + a)
+        dist["Header():" + (i[0] if i[0] == "OK" else i[1])] = dist.get("Header():" + (i[0] if i[0] == "OK" else i[1]), 0) + 1
+        if i[0] == "ERR" and i[1] != "PsecError":
+            viol.append({"what": "Header(...) escaped with a foreign exception", "input": {"args": list(a)}, "expected": "Ok or HeaderError", "observed": i[1]})
+        if core.parse_model(l) != i:
+            diffs.append({"op": "Header()", "args": list(a), "impl": list(i), "model": list(core.parse_model(l))})
     if not samples:
         samples.append({"op": "unwrap", "string": unwrap_items[1][1][:80]})
     return {"evaluations": evals, "distinct_nontrivial": len(seen), "samples": samples, "distribution": dist,
